@@ -387,3 +387,44 @@ fn c06_cli_seed_reuse() {
     }
     println!("COMPANION-OK cases={}", cases);
 }
+
+/// C02 through the CLI: seeds never change the output -- also when the output file already exists and is longer than the source
+/// (--force-create) and the seeds happen to cover every chunk.  Seed sets: none / unrelated / part of the source / the whole
+/// source / source + unrelated, x fresh output / existing longer output.
+#[test]
+fn c02_cli_seeds_over_existing_output() {
+    let dir = Tmp::new("c02");
+    let mut rng = Rng(0x0202_c11c_0000_0021);
+    let blk: Vec<Vec<u8>> = (0..7).map(|i| block(&mut rng, 4096, true, i as u8)).collect();
+    let cat = |ids: &[usize]| -> Vec<u8> { ids.iter().flat_map(|&i| blk[i].iter().copied()).collect() };
+    let source_ids = vec![0usize, 1, 2, 1, 3];
+    let source = cat(&source_ids);
+    let src = dir.path("s.src");
+    std::fs::write(&src, &source).unwrap();
+    let arch = dir.path("a.cba");
+    let st = Command::new(BITA).arg("compress").arg("-i").arg(&src).args(["--fixed-size", "4096", "--compression", "none"]).arg(&arch).output().unwrap();
+    if !st.status.success() { witness("C11", "bita compress failed", String::from_utf8_lossy(&st.stderr).into()); }
+    let seed_sets: Vec<Vec<Vec<usize>>> = vec![vec![], vec![vec![5, 6]], vec![vec![1, 3]], vec![vec![0, 1, 2, 1, 3]], vec![vec![3, 2], vec![6, 1, 0]]];
+    let mut cases = 0;
+    for existing in [false, true] {
+        for seeds in &seed_sets {
+            let out = dir.path("out.bin");
+            let _ = std::fs::remove_file(&out);
+            let mut cmd = Command::new(BITA);
+            cmd.arg("clone");
+            if existing { std::fs::write(&out, cat(&[6, 5, 6, 5, 6, 5, 6, 5])).unwrap(); cmd.arg("--force-create"); }
+            for (i, sd) in seeds.iter().enumerate() {
+                let sp = dir.path(&format!("seed{}.bin", i));
+                std::fs::write(&sp, cat(sd)).unwrap();
+                cmd.arg("--seed").arg(&sp);
+            }
+            let o = cmd.arg(&arch).arg(&out).output().unwrap();
+            let label = format!("existing longer output: {} seeds {:?}", existing, seeds);
+            if !o.status.success() { witness("C02", "bita clone with seed files failed", format!("{} :: {}", label, String::from_utf8_lossy(&o.stderr))); }
+            let got = std::fs::read(&out).unwrap();
+            if got != source { witness("C02", "seeds changed the output of a successful clone", format!("{} :: output length {} source length {}", label, got.len(), source.len())); }
+            cases += 1;
+        }
+    }
+    println!("COMPANION-OK cases={}", cases);
+}
